@@ -121,13 +121,15 @@ structure AddOut where
   st : St
   raised : Bool
 
-/-- `Core.add(a, grid[cell])` in the code's statement order: `Composite.add` (child appended) comes
-BEFORE the occupied-location test, so a rejected assembly stays in the child list (finding F11a). -/
+/-- `Core.add(a, grid[cell])` in the code's statement order (after fix f30dfba): the occupied-location test
+comes BEFORE `Composite.add`, so a refused assembly leaves the core as it was. `Composite.add` itself refuses
+an object that is already a child. -/
 def coreAdd (s : St) (a : Asm) (c : Cell) : AddOut :=
+  -- both refusals leave `s` untouched, so the order of the two tests is immaterial here
   if s.core.any (fun p => p.1.id = a.id) then ⟨s, true⟩          -- Composite.add: already a child
   else
     let s1 := { s with core := s.core ++ [(a, c)] }
-    if (s.byLoc c).isSome then ⟨s1, true⟩                         -- ValueError (in fact a KeyError while formatting)
+    if (s.byLoc c).isSome then ⟨s, true⟩                          -- ValueError: location filled (tested first)
     else
       ⟨{ s1 with byLoc := setLoc s.byLoc c a.id, byName := setKey s.byName a.id true,
                  bbn := setKeys s.bbn (a.blocks.map (·.bid)) true }, false⟩
@@ -153,6 +155,18 @@ def dischargeSwap (s : St) (incoming : Asm) (outId : Nat) : Option St :=
       (removeAssembly (xfer s outId out' c incoming.id inc') outId true).bind
         (fun s1 => putIn s1 incoming.id inc' c)
 
+/-- `incoming.renumber(...); blocksByName.update((b.getName(), b) for b in incoming)` (object level: the blocks of
+the fresh assembly become registered) -/
+def preReg (s : St) (a : Asm) : St := { s with bbn := setKeys s.bbn (a.blocks.map (·.bid)) true }
+
+/-- `dischargeSwap` with a FRESH incoming assembly (placeholder number, fix 2acbfbd): it is renumbered and its
+blocks are entered in `blocksByName` BEFORE the stationary exchange; then as above. Second component: the call
+raised (the registration done before stays). -/
+def dischargeSwapFresh (s : St) (incoming : Asm) (outId : Nat) : St × Bool :=
+  match dischargeSwap (preReg s incoming) incoming outId with
+  | some s' => (s', false)
+  | none => (preReg s incoming, true)
+
 /-- a consistent start state: the tables are the ones `Core.add` built while the reactor was loaded -/
 def initSt (ks : List (Asm × Cell)) (sf : List Asm) (track : Bool) : St :=
   ⟨ks, fun c => (ks.find? (fun p => p.2 = c)).map (·.1.id),
@@ -172,11 +186,11 @@ inductive Op
   | add (a : Asm) (c : Cell)
 
 /-- one operation; a call the code refuses (`none`) leaves the state as it was; a refused swap inside a cascade
-stops the cascade; `add` keeps whatever `Core.add` leaves behind -/
+stops the cascade; a refused fresh discharge keeps the block names registered before the exchange -/
 def step (s : St) : Op → St
   | .swap i j => (swap s i j).getD s
   | .cascade l => (cascade s l).1
-  | .dnew a o => (dischargeSwap s a o).getD s
+  | .dnew a o => (dischargeSwapFresh s a o).1
   | .dsfp i o =>
     match s.sfp.find? (fun a => a.id = i) with
     | some a => (dischargeSwap s a o).getD s
@@ -243,11 +257,28 @@ def nTransfer (a1 a2 : NAsm) : NAsm × NAsm :=
   ({ a1 with blocks := a1.blocks.zipIdx.map (fun p => if p.1.stat then a2.blocks.getD p.2 p.1 else p.1) },
    { a2 with blocks := a2.blocks.zipIdx.map (fun p => if p.1.stat then a1.blocks.getD p.2 p.1 else p.1) })
 
-/-- `dischargeSwap(fresh incoming, outgoing)` at name level: exchange, outgoing leaves (pooled: tables untouched;
-purged: names deleted), incoming added. Returns the tables, the incoming and the outgoing assembly afterwards. -/
-def nDischarge (s : NSt) (incoming out : NAsm) (track : Bool) : NSt × NAsm × NAsm :=
+/-- the code BEFORE fix 2acbfbd: exchange first, `Core.add` renumbers afterwards (kept for the witnesses of the two
+former findings) -/
+def nDischargeOld (s : NSt) (incoming out : NAsm) (track : Bool) : NSt × NAsm × NAsm :=
   let (inc', out') := nTransfer incoming out
   let s1 := if track then s else nPurge s out'
+  let (s2, inc'') := nCoreAdd s1 inc'
+  (s2, inc'', out')
+
+/-- `incoming.renumber(r.incrementAssemNum()); blocksByName.update(...)` of `dischargeSwap` for a placeholder number -/
+def nPrepare (s : NSt) (a : NAsm) : NSt × NAsm :=
+  if a.num < 0 then
+    let a1 := renumber a s.next
+    ({ s with bbn := regBlocks s.bbn a1.blocks, next := s.next + 1 }, a1)
+  else (s, a)
+
+/-- `dischargeSwap(fresh incoming, outgoing)` at name level (fixed order): number and register the incoming
+assembly's blocks, exchange, outgoing leaves (pooled: tables untouched; purged: current names deleted), incoming added
+(`Core.add` no longer renumbers). Returns the tables, the incoming and the outgoing assembly afterwards. -/
+def nDischarge (s : NSt) (incoming out : NAsm) (track : Bool) : NSt × NAsm × NAsm :=
+  let (s0, inc0) := nPrepare s incoming
+  let (inc', out') := nTransfer inc0 out
+  let s1 := if track then s0 else nPurge s0 out'
   let (s2, inc'') := nCoreAdd s1 inc'
   (s2, inc'', out')
 
